@@ -19,6 +19,7 @@
   lock-step trace equality and by the happens-before monitor of the correspondence harness).
 -/
 import Babylon.CVec.Witness
+import Babylon.CVec.View
 
 namespace Babylon.Properties.C04
 open Babylon.Core Babylon.CVec
@@ -46,6 +47,15 @@ theorem gen_skel_snapshot : Gen.CVec.skel_snapshot = Skel.snapshot := by decide
 theorem gen_skel_dtor : Gen.CVec.skel_dtor = Skel.dtor := by decide
 theorem gen_skel_create_block : Gen.CVec.skel_create_block = Skel.create_block := by decide
 theorem gen_skel_delete_block : Gen.CVec.skel_delete_block = Skel.delete_block := by decide
+/-- publication orders: the publishing CAS releases; every way of obtaining the table pointer acquires
+(weakening any of the four in vector.hpp breaks the corresponding obligation and the view theorems) -/
+theorem gen_ordTblCasSucc_releases : Core.Ord.releases Gen.CVec.ordTblCasSucc = true := by decide
+theorem gen_ordTblLoad_acquires : Core.Ord.acquires Gen.CVec.ordTblLoad = true := by decide
+theorem gen_ordSnapshotLoad_acquires : Core.Ord.acquires Gen.CVec.ordSnapshotLoad = true := by decide
+theorem gen_ordTblCasFail_acquires : Core.Ord.acquires Gen.CVec.ordTblCasFail = true := by decide
+/-- `_block_table` is never exchanged and its only plain stores are the three in the constructor and in
+swap() (not thread-safe): inside the thread-safe API it is modified by the CAS alone (release sequence) -/
+theorem gen_tblWrites : Gen.CVec.tblStoreSites = 3 ∧ Gen.CVec.tblExchangeSites = 0 := by decide
 
 /-! ### index arithmetic (static and dynamic block sizes are both `2 ^ bits`) -/
 
@@ -213,6 +223,84 @@ theorem cvec_destroyed_once {c : Cfg} {s : State} (h : R c s) (hd : s.destroyed 
   have hg := inv.b.global a
   have hall := inv.b.doneAll hd a
   omega
+
+/-! ### publication under the release/acquire view model (stale reads included) -/
+
+section ViewModel
+open Babylon.Core.MemView Babylon.CVec.View Babylon.Gen.CVec
+variable {L : Type} [DecidableEq L]
+
+/-- Grower `a` constructs cell `le` (an element of a new block, or an entry of the new table: plain
+write of `x`), does anything else, then wins the CAS on the table pointer `lt` with the orders of the
+source.  In any later memory `m3` whose `lt` has since been modified by CASes only (`R`, supplied by
+`cvec_publication_relseq` / `cvec_publication_relseq_step`), a reader `b` that loads `lt` through
+`get_qualified_block_table` (`ordTblLoad`: ensure / reserve / for_each / fill_n / copy_n) and obtains
+`a`'s table or ANY LATER one (`tsT`; stale loads included), then reads `le` at any admissible timestamp
+`ts'`, cannot read a message older than the constructing write — the unconstructed cell is not a
+behaviour of any view-model execution — and reads exactly `x` if the cell was written once. -/
+theorem cvec_publication_view (m : Mem L) (a b : Nat) (le lt : L) (ov ov' : Core.Ord) (x e d ts : Nat)
+    {m1 m2 m3 m4 m5 m6 : Mem L} {obs v tsT ts' v' : Nat}
+    (h1 : (m.write a le ov x).Ext m1)
+    (h2 : m1.cas a lt ordTblCasSucc ordTblCasFail e d ts = some (m2, true, obs))
+    (h3 : m2.Ext m3) (R : RelSeq m3 lt (m1.len lt) (m1.tv a).cur) (hts : m1.len lt ≤ tsT)
+    (h4 : m3.read b lt ordTblLoad tsT = some (m4, v))
+    (h5 : m4.Ext m5)
+    (h6 : m5.read b le ov' ts' = some (m6, v')) :
+    m.len le ≤ ts' ∧ (m5.len le = m.len le + 1 → v' = x) :=
+  View.cvec_publication_view m a b le lt ov ov' x e d ts h1 h2 h3 R hts h4 h5 h6
+
+/-- the same for snapshot() / operator[] / size() (`ordSnapshotLoad`) -/
+theorem cvec_publication_view_snapshot (m : Mem L) (a b : Nat) (le lt : L) (ov ov' : Core.Ord) (x e d ts : Nat)
+    {m1 m2 m3 m4 m5 m6 : Mem L} {obs v tsT ts' v' : Nat}
+    (h1 : (m.write a le ov x).Ext m1)
+    (h2 : m1.cas a lt ordTblCasSucc ordTblCasFail e d ts = some (m2, true, obs))
+    (h3 : m2.Ext m3) (R : RelSeq m3 lt (m1.len lt) (m1.tv a).cur) (hts : m1.len lt ≤ tsT)
+    (h4 : m3.read b lt ordSnapshotLoad tsT = some (m4, v))
+    (h5 : m4.Ext m5)
+    (h6 : m5.read b le ov' ts' = some (m6, v')) :
+    m.len le ≤ ts' ∧ (m5.len le = m.len le + 1 → v' = x) :=
+  View.cvec_publication_view_snapshot m a b le lt ov ov' x e d ts h1 h2 h3 R hts h4 h5 h6
+
+/-- the loser of the growth race: its own CAS fails and hands back the winner's (or a later) table through
+the failure order of the source; the cells it then copies / returns were constructed -/
+theorem cvec_publication_view_loser (m : Mem L) (a b : Nat) (le lt : L) (ov ov' : Core.Ord) (x e d ts e' d' : Nat)
+    {m1 m2 m3 m4 m5 m6 : Mem L} {obs obs' tsT ts' v' : Nat}
+    (h1 : (m.write a le ov x).Ext m1)
+    (h2 : m1.cas a lt ordTblCasSucc ordTblCasFail e d ts = some (m2, true, obs))
+    (h3 : m2.Ext m3) (R : RelSeq m3 lt (m1.len lt) (m1.tv a).cur) (hts : m1.len lt ≤ tsT)
+    (h4 : m3.cas b lt ordTblCasSucc ordTblCasFail e' d' tsT = some (m4, false, obs'))
+    (h5 : m4.Ext m5)
+    (h6 : m5.read b le ov' ts' = some (m6, v')) :
+    m.len le ≤ ts' ∧ (m5.len le = m.len le + 1 → v' = x) :=
+  View.cvec_publication_view_loser m a b le lt ov ov' x e d ts e' d' h1 h2 h3 R hts h4 h5 h6
+
+/-- the release sequence exists right after the publishing CAS … -/
+theorem cvec_publication_relseq {m1 m2 : Mem L} {a : Nat} {lt : L} {e d ts obs : Nat}
+    (h2 : m1.cas a lt ordTblCasSucc ordTblCasFail e d ts = some (m2, true, obs)) :
+    RelSeq m2 lt (m1.len lt) (m1.tv a).cur := View.cvec_publication_relseq h2
+
+/-- … and survives every later CAS on the table pointer (won or lost, by anybody) and every step that does
+not write it -/
+theorem cvec_publication_relseq_step {m m' : Mem L} {lt : L} {ts0 : Nat} {W : MemView.View L} {t : Nat}
+    {e d ts : Nat} {ok : Bool} {obs : Nat} (R : RelSeq m lt ts0 W) (hlt : ts0 < m.len lt)
+    (h : m.cas t lt ordTblCasSucc ordTblCasFail e d ts = some (m', ok, obs)) : RelSeq m' lt ts0 W :=
+  View.cvec_publication_relseq_step R hlt h
+
+theorem cvec_publication_relseq_frame {m m' : Mem L} {lt : L} {ts0 : Nat} {W : MemView.View L}
+    (R : RelSeq m lt ts0 W) (h : m'.hist lt = m.hist lt) : RelSeq m' lt ts0 W := relseq_hist_eq R h
+
+/-- NEGATIVE CONTROLS (concrete view-model executions, see Babylon/CVec/View.lean for the litmus program):
+with the publishing CAS relaxed, or the reading load relaxed, or the loser's failure order relaxed, the
+reader obtains table 1 and reads the UNCONSTRUCTED element (0 instead of 7) -/
+example : pubRun .rlx ordTblLoad false 1 0 = some 100 := by decide
+example : pubRun ordTblCasSucc .rlx false 1 0 = some 100 := by decide
+example : loserRun ordTblCasSucc .rlx 1 0 = some 100 := by decide
+/-- with the orders of the source that outcome does not exist, directly and through a later table -/
+example : pubRun ordTblCasSucc ordTblLoad false 1 0 = none ∧ pubRun ordTblCasSucc ordSnapshotLoad false 1 0 = none ∧
+    pubRun ordTblCasSucc ordTblLoad true 2 0 = none ∧ loserRun ordTblCasSucc ordTblCasFail 1 0 = none ∧
+    pubRun ordTblCasSucc ordTblLoad false 1 1 = some 107 := by decide
+
+end ViewModel
 
 /-! ### cooling period -/
 
